@@ -282,3 +282,9 @@ PLANS["C12"] = idt_plan("idt", 1000, 200000,
     "for ALL 256 vectors a handler address (canonical lattice / random) is set through every path that may reach the vector (named field, idt[v], slice_mut, idt[a..=b], idt[a..], (Bound,Bound)) followed by 2-7 random option setters (present, disable_interrupts, privilege level 0-3, stack index 0-6, code selector); the raw 4096 bytes are diffed after every call; Index/IndexMut<u8> offsets or refusal and named-field offsets for all 256 vectors; range access through all 13 Index impls (+ all 9 Bound kind combinations, slice/slice_mut) on boundary pairs {0,1,30,31,32,33,100,200,254,255}^2 + random (thorough: all 65536 pairs); new/default/clone/reset; trapped lidt operand; distinct = distinct (operation, arguments)",
     ({"module": "MC_Idt", "cfg": "MC_Idt.cfg", "workers": 8},),
     exhaustive_note="all 256 vectors x access paths; thorough: all (start,end) u8 pairs for the range forms")
+
+
+PLANS["C13"] = idt_plan("idt13", 1000, 200000,
+    "set_general_handler!(idt, h, range) with run-time ranges: inclusive (lo, hi) pairs over a 24-value vector lattice (thorough: all 32896 pairs lo <= hi), exclusive and reversed/empty ranges, the full-table and literal-index forms, on fresh and pre-populated tables, raw 4096 bytes before/after; then for every vector of a fully installed table the gate is decoded from raw bytes and entered by simulated delivery (hardware-format frame + error code on the error-code vectors pushed on one of several scratch stacks, varying arithmetic RFLAGS and error-code values 0, 1, all-ones, 0x85, random; jmp to the gate offset) in a forked child; the general handler reports its arguments, the resume point reports rsp/rflags/rip; vectors 8 and 18 (diverging) end in the handler; InterruptStackFrameValue::iretq to a landing pad that reports rsp/rflags; distinct = distinct (operation, arguments)",
+    ({"module": "MC_Idt", "cfg": "MC_Idt.cfg", "workers": 8},),
+    exhaustive_note="all 256 vectors delivered; thorough: every contiguous (lo,hi) range")
